@@ -17,7 +17,7 @@ AttackerNonce == "m1"
 Init ==
     /\ N = [status |-> [c \in Conns |-> "none"], chal |-> [c \in Conns |-> NoChal],
             key |-> [c \in Conns |-> NoKey], byKey |-> [k \in Keys |-> 0]]
-    /\ nn = 1 /\ known = {AttackerNonce} /\ sigA = {} /\ accepted = <<>> /\ h = <<>>
+    /\ nn = 1 /\ known = {AttackerNonce, "zero"} /\ sigA = {} /\ accepted = <<>> /\ h = <<>>
 
 Room == Len(h) < MaxLen
 
@@ -36,7 +36,7 @@ Close(c) ==
     /\ UNCHANGED <<nn, known, sigA, accepted>>
 
 SendChal(c, x) ==
-    /\ Room /\ N.status[c] \in {"connecting", "connected", "disconnected"} /\ nn <= MaxNonce
+    /\ Room /\ N.status[c] \in {"connecting", "connected"} /\ nn <= MaxNonce   \* messages arrive on open connections only
     /\ x \in known
     /\ N' = OnChallenge(N, c, Nonce(nn))
     /\ nn' = nn + 1
@@ -46,7 +46,7 @@ SendChal(c, x) ==
     /\ UNCHANGED accepted
 
 SendResp(c, k, x, valid, ver) ==
-    /\ Room /\ N.status[c] \in {"connecting", "connected", "disconnected"}
+    /\ Room /\ N.status[c] \in {"connecting", "connected"}
     /\ x \in known
     /\ (valid /\ k = "A") => x \in sigA        \* only A makes A's signatures
     /\ N' = OnResponse(N, c, k, x, valid, ver)
